@@ -83,4 +83,35 @@ theorem worldB_not_live : live (applyAll worldB (hsOf worldB.toCore)) = false :=
 theorem worldB_facts : worldB.store = 2 ∧ worldB.st = 2 ∧ worldB.app = 2 ∧ worldB.pv = ⟨3, 0, 2⟩ ∧
     hasMark worldB.wal 3 = false ∧ hasMark worldB.wal 2 = true := ⟨rfl, rfl, rfl, rfl, rfl, rfl⟩
 
+/-! #### C: kill #1 tears the WAL record of the proposal of height 2; kill #2 before `SaveBlock` -/
+
+def killT : List Ev := (genesisHs ++ walOpenEvs w0 ++ (h1Evs ++ (h2Evs ++ []))).take 36
+def worldT0 : Disk := applyAll Disk.empty killT
+
+theorem reach_worldT0 : Reach worldT0 :=
+  Reach.kill _ _ Reach.genesis
+    (Proc.running genesisHs _ (h1Evs ++ (h2Evs ++ [])) killT genesis_newNode rfl
+      (Heights.height w1 [] 0 _ (Heights.height w2 [⟨7, 8⟩] 0 [] (Heights.done _))) (List.take_prefix _ _))
+
+/-- the world kill #1 leaves: the proposal was signed, half of its WAL line is on disk -/
+def worldT1 : Disk := tornKill worldT0
+def hsT : List Ev := hsOf worldT1.toCore
+theorem worldT1_newNode : newNode worldT1.toCore = .ok (hsT, applyAllCore worldT1.toCore hsT) := rfl
+def wT : Disk := applyAll (applyAll worldT1 hsT) (walOpenEvs (applyAll worldT1 hsT))
+def hTEvs : List Ev := heightEvs wT [⟨7, 8⟩] 0
+/-- the restarted node signs and logs again, and is killed right before `SaveBlock` -/
+def killT2 : List Ev := (hsT ++ walOpenEvs (applyAll worldT1 hsT) ++ (hTEvs ++ [])).take 7
+def worldT2 : Disk := applyAll worldT1 killT2
+
+theorem proc_worldT2 : Proc worldT1 killT2 :=
+  Proc.running hsT _ (hTEvs ++ []) killT2 worldT1_newNode rfl
+    (Heights.height wT [⟨7, 8⟩] 0 [] (Heights.done _)) (List.take_prefix _ _)
+
+theorem worldT2_newNode :
+    newNode worldT2.toCore = .ok (hsOf worldT2.toCore, applyAllCore worldT2.toCore (hsOf worldT2.toCore)) := rfl
+
+theorem worldT2_not_startable : startOK (applyAll worldT2 (hsOf worldT2.toCore)) = false := rfl
+
+theorem worldT1_starts : startOK (applyAll worldT1 hsT) = true ∧ live (applyAll worldT1 hsT) = true := ⟨rfl, rfl⟩
+
 end GnoVerif.C33
